@@ -349,6 +349,7 @@ impl SchedReader {
 
 impl Read for SchedReader {
     fn read(&mut self, buf: &mut [u8]) -> std::io::Result<usize> {
+        _ = crate::membe::PROGRESS.fetch_add(1, std::sync::atomic::Ordering::Relaxed);
         self.calls += 1;
         if self.sched.interrupt_every > 0
             && !self.interrupted_last
